@@ -816,3 +816,112 @@ func runReader(sc *streamScenario, rec *recorder, level int) {
 }
 
 func newBufio(r io.Reader) *bufio.Reader { return bufio.NewReaderSize(r, 4096) }
+
+// ---------- C18 (reader half): the reader fails at a byte offset ----------
+
+func runRFault(sc *streamScenario, rec *recorder, level int) {
+	bs := buildStream(sc.Units, sc.Pkts, sc.PMTPIDs, sc.Seed, sc.Complete)
+	rg := newRng(sc.Seed ^ 0x1818)
+	n := len(bs.bytes)
+	bound := len(bs.pkts) + len(bs.units)*4 + 10
+	var offs []int
+	if level > 1 || n <= 600 {
+		for o := 0; o <= n; o++ {
+			offs = append(offs, o)
+		}
+	} else {
+		for o := 0; o <= 400 && o <= n; o++ {
+			offs = append(offs, o)
+		}
+		for k := 0; k < 150; k++ {
+			offs = append(offs, rg.intn(n+1))
+		}
+		offs = append(offs, n-1, n)
+	}
+	for _, auto := range []bool{false, true} {
+		if auto && len(bs.pkts) < 2 {
+			continue
+		}
+		run := demuxRun{}
+		if auto {
+			run.PSize = -1
+		}
+		for _, api := range []string{"data", "packet"} {
+			for _, seek := range []bool{true, false} {
+				rec.ev(M{"ev": "reset", "t": fmt.Sprintf("%s/%v/%s/%v", sc.SID, auto, api, seek), "kind": "rfault", "sid": sc.SID, "auto": auto, "api": api})
+				// fault-free reference with the same kind of reader
+				{
+					var rr io.Reader = bytes.NewReader(bs.bytes)
+					if !seek {
+						rr = plainReader{rr}
+					}
+					dmx := newDemuxer(rr, run)
+					for k := 0; k < bound; k++ {
+						if api == "data" {
+							d, err := dmx.NextData()
+							if err == astits.ErrNoMorePackets {
+								break
+							}
+							if err == nil {
+								rec.ev(M{"ev": "clean", "dg": projDeliver(d)["dg"]})
+							}
+						} else {
+							p, err := dmx.NextPacket()
+							if err != nil {
+								break
+							}
+							rec.ev(M{"ev": "clean", "dg": hdrDigest(p)})
+						}
+					}
+				}
+				for _, off := range offs {
+					if !seek && level < 2 && rg.intn(4) != 0 {
+						continue
+					}
+					for _, partial := range []bool{true, false} {
+						var r io.Reader
+						fr := &failReader{b: bs.bytes, failAt: off, partial: partial}
+						r = fr
+						if seek {
+							fsr := &failSeekReader{failReader{b: bs.bytes, failAt: off, partial: partial}}
+							fr = &fsr.failReader
+							r = fsr
+						}
+						rec.ev(M{"ev": "rstart", "off": off, "partial": partial, "seek": seek})
+						dmx := newDemuxer(r, run)
+						for k := 0; k < bound; k++ {
+							before := fr.fired
+							var dg string
+							res := "ok"
+							p := safeCall(func() {
+								var err error
+								if api == "data" {
+									var d *astits.DemuxerData
+									if d, err = dmx.NextData(); err == nil {
+										dg = projDeliver(d)["dg"].(string)
+									}
+								} else {
+									var pk *astits.Packet
+									if pk, err = dmx.NextPacket(); err == nil {
+										dg = hdrDigest(pk)
+									}
+								}
+								if err != nil {
+									res = errClass(err)
+								}
+							})
+							if p != nil {
+								res = "panic"
+							}
+							rfail := fr.fired > before
+							rec.ev(M{"ev": "rcall", "api": api, "res": res, "rfail": rfail, "dg": dg, "off": off})
+							if rfail || res == "nomore" || res == "panic" {
+								break
+							}
+						}
+					}
+				}
+			}
+		}
+	}
+}
